@@ -82,6 +82,7 @@ type FuncExec struct {
 type ghFact struct {
 	comp string
 	fact string
+	key  string // the heap version the fact is about: the fact is emitted iff the obligation mentions it
 }
 
 func (fx *FuncExec) fresh(hint, sort string) string {
@@ -163,23 +164,23 @@ func (fx *FuncExec) recordGoodHeap(st *State, comps []string) {
 		switch {
 		case strings.HasPrefix(c, "MD_"):
 			mi := r.maps[strings.TrimPrefix(c, "MD_")]
-			fx.ghFacts = append(fx.ghFacts, ghFact{c, eq(sel(cur, "null_"+mi.Sort), "((as const (Array "+mi.K+" Bool)) false)")})
+			fx.ghFacts = append(fx.ghFacts, ghFact{c, eq(sel(cur, "null_"+mi.Sort), "((as const (Array "+mi.K+" Bool)) false)"), cur})
 		case strings.HasPrefix(c, "MV_"):
 			mi := r.maps[strings.TrimPrefix(c, "MV_")]
 			if al, ok := r.allocOf[mi.V]; ok && mi.V != "SRef" {
 				fx.ghFacts = append(fx.ghFacts, ghFact{c, fmt.Sprintf("(forall ((m %s) (k %s)) (! (or (= (select (select %s m) k) null_%s) (select %s (select (select %s m) k))) :pattern ((select (select %s m) k))))",
-					mi.Sort, mi.K, cur, mi.V, st.vars[al], cur, cur)})
+					mi.Sort, mi.K, cur, mi.V, st.vars[al], cur, cur), cur})
 			}
 		case strings.HasPrefix(c, "F_") || strings.HasPrefix(c, "PV_"):
 			cs := r.compSort[c]
 			ks, vs := arraySorts(cs)
 			if al, ok := r.allocOf[vs]; ok && vs != "SRef" {
 				fx.ghFacts = append(fx.ghFacts, ghFact{c, fmt.Sprintf("(forall ((r %s)) (! (or (= (select %s r) null_%s) (select %s (select %s r))) :pattern ((select %s r))))",
-					ks, cur, vs, st.vars[al], cur, cur)})
+					ks, cur, vs, st.vars[al], cur, cur), cur})
 			}
 			if vs == "Slice" {
 				fx.ghFacts = append(fx.ghFacts, ghFact{c, fmt.Sprintf("(forall ((r %s)) (! (and (>= (slen (select %s r)) 0) (>= (soff (select %s r)) 0) (or (= (sref (select %s r)) null_SRef) (select %s (sref (select %s r))))) :pattern ((select %s r))))",
-					ks, cur, cur, cur, st.vars["AL_SRef"], cur, cur)})
+					ks, cur, cur, cur, st.vars["AL_SRef"], cur, cur), cur})
 			}
 		case strings.HasPrefix(c, "SE_"):
 			cs := r.compSort[c]
@@ -187,11 +188,11 @@ func (fx *FuncExec) recordGoodHeap(st *State, comps []string) {
 			_, vs := arraySorts(inner)
 			if al, ok := r.allocOf[vs]; ok && vs != "SRef" {
 				fx.ghFacts = append(fx.ghFacts, ghFact{c, fmt.Sprintf("(forall ((r SRef) (i Int)) (! (or (= (select (select %s r) i) null_%s) (select %s (select (select %s r) i))) :pattern ((select (select %s r) i))))",
-					cur, vs, st.vars[al], cur, cur)})
+					cur, vs, st.vars[al], cur, cur), cur})
 			}
 		case strings.HasPrefix(c, "AL_"):
 			srt := strings.TrimPrefix(c, "AL_")
-			fx.ghFacts = append(fx.ghFacts, ghFact{c, not(sel(cur, "null_"+srt))})
+			fx.ghFacts = append(fx.ghFacts, ghFact{c, not(sel(cur, "null_"+srt)), cur})
 		}
 	}
 }
@@ -439,29 +440,41 @@ func (fx *FuncExec) specEnv(cur, old *State, pos token.Pos, where string) *SpecE
 	return e
 }
 
-// Render produces the SMT-LIB script for an obligation.
-func (o *Obligation) Render(preamble string) string {
-	var b strings.Builder
-	b.WriteString(preamble)
+// Render produces the SMT-LIB script for an obligation: pruned global
+// preamble, the function-level constants it mentions, assumptions, goal.
+func (o *Obligation) Render(_ string) string {
 	fx := o.fx
-	for _, d := range fx.decls {
-		b.WriteString(d + "\n")
-	}
+	var body strings.Builder
 	seen := map[string]bool{}
-	for _, g := range fx.ghFacts {
-		if fx.used[g.comp] && !seen[g.fact] {
-			seen[g.fact] = true
-			b.WriteString("(assert " + g.fact + ")\n")
-		}
-	}
 	for _, p := range o.PC {
-		b.WriteString("(assert " + p + ")\n")
+		body.WriteString("(assert " + p + ")\n")
 	}
 	if o.Expect == "unsat" {
-		b.WriteString("(assert (not " + o.Neg + "))\n")
+		body.WriteString("(assert (not " + o.Neg + "))\n")
 	} else {
-		b.WriteString("(assert " + o.Neg + ")\n")
+		body.WriteString("(assert " + o.Neg + ")\n")
 	}
+	syms := map[string]bool{}
+	symbolsOf(body.String(), syms)
+	// good-heap facts: only for heap versions the obligation itself mentions
+	var gh strings.Builder
+	for _, g := range fx.ghFacts {
+		if seen[g.fact] || !syms[g.key] {
+			continue
+		}
+		seen[g.fact] = true
+		gh.WriteString("(assert " + g.fact + ")\n")
+		symbolsOf(g.fact, syms)
+	}
+	full := gh.String() + body.String()
+	var b strings.Builder
+	b.WriteString(fx.reg.PreambleFor(full))
+	for _, d := range fx.decls {
+		if syms[declName(d)] {
+			b.WriteString(d + "\n")
+		}
+	}
+	b.WriteString(full)
 	b.WriteString("(check-sat)\n")
 	return b.String()
 }
